@@ -78,13 +78,14 @@ def expand_readings(seed_words):
          "fn expand_seed ( data : & mut [ u64 ] , size : usize , cn : usize , ck : usize , has_seed : bool , parms : & EncryptionParameters ) {"),
         ("self . contains_seed ( )", "has_seed"),
         ("self . size ( )", "size"),
-        ("let prng_seed_byte_count = std :: mem :: size_of :: < PRNGSeed > ( ) ;\n"
-         "let seed_ptr = self . poly_component_mut ( 1 , 0 ) . as_mut_ptr ( ) . offset ( 1 ) as * mut u8 ;\n"
-         "let seed_slice = std :: slice :: from_raw_parts ( seed_ptr , prng_seed_byte_count ) ;\n"
-         "let mut seed = [ 0_u8 ; util :: HE_PRNG_SEED_BYTES ] ;\n"
-         "seed . copy_from_slice ( & seed_slice [ .. util :: HE_PRNG_SEED_BYTES ] ) ;\n"
-         "let prng_seed : PRNGSeed = PRNGSeed ( seed ) ;",
-         "let comp = & data [ %s .. %s + cn ] ; let prng_seed = __le_bytes ( data , %s + 1 , %d ) ;" % (OFF, OFF, OFF, seed_words)),
+        # the six pointer statements; the local names are wildcards (renaming them is harmless), everything else is pinned
+        ("re", r"let (\w+) = std :: mem :: size_of :: < PRNGSeed > \( \) ;\n"
+               r"let (\w+) = self \. poly_component_mut \( 1 , 0 \) \. as_mut_ptr \( \) \. offset \( 1 \) as \* mut u8 ;\n"
+               r"let (\w+) = std :: slice :: from_raw_parts \( \2 , \1 \) ;\n"
+               r"let mut (\w+) = \[ 0_u8 ; util :: HE_PRNG_SEED_BYTES \] ;\n"
+               r"\4 \. copy_from_slice \( & \3 \[ \.\. util :: HE_PRNG_SEED_BYTES \] \) ;\n"
+               r"let (\w+) : PRNGSeed = PRNGSeed \( \4 \) ;",
+         r"let comp = & data [ %s .. %s + cn ] ; let \5 = __le_bytes ( data , %s + 1 , %d ) ;" % (OFF, OFF, OFF, seed_words)),
         ("context . get_context_data ( self . parms_id ( ) ) . unwrap ( ) . parms ( )", "parms"),
         ("self . poly_mut ( 1 )", "& mut data [ 1 * %s .. ( 1 + 1 ) * %s ]" % (D, D)),
         ("}\nself\n}", "}\n}"),
@@ -171,7 +172,12 @@ class Gen:
         if ent.get("skeleton") == "expand_seed":
             nb = self.const("src/util/basic.rs", "HE_PRNG_SEED_BYTES")
             if nb % 8: self.fail("HE_PRNG_SEED_BYTES is not a multiple of 8")
-            for key, rep in expand_readings(nb // 8):
+            for ent_r in expand_readings(nb // 8):
+                if ent_r[0] == "re":
+                    norm, cnt = re.subn(ent_r[1], ent_r[2], norm)
+                    if cnt != 1: self.fail(f"fn {name}: skeleton reading of the raw-pointer seed read matches {cnt} times")
+                    continue
+                key, rep = ent_r
                 if norm.count(key) != 1: self.fail(f"fn {name}: skeleton reading `{key}` matches {norm.count(key)} times")
                 norm = norm.replace(key, rep)
         norm, np_ = PTR_READ.subn(lambda m: "__read_le ( self . buffer , self . buffer_current , %d )" % (int(m.group(1)) // 8), norm)
